@@ -1,5 +1,5 @@
 (** C14 - entry point metadata matches the shader's entry points. *)
-From W2W Require Import Wf C14Spec C14Proof.
+From W2W Require Import Wf C14Spec C14Proof Obs C14Obs.
 
 (** For every module: one ENTRY_ constant per entry point in order carrying its exact name; per compute
     entry a workgroup-size constant equal to the IR's workgroup size and a pipeline constructor targeting
@@ -23,3 +23,42 @@ Example C14_nonvacuous :
   exists out_, gen ex_mod "" None (mkOptions false false false false MVRust) = Ok out_ /\
     map fe_targets (o_fentries out_) = [4%N].
 Proof. eexists. split; vm_compute; reflexivity. Qed.
+
+(** The property as stated, over what the generated helpers DO ([Spec/Obs.v], names resolved like rustc resolves them).
+    For every module the generator accepts in which no two entry points have names equal up to case and no vertex
+    entry takes two struct parameters with one snake-case name (outside these the module does not compile - listed
+    findings of C01):
+    - one [ENTRY_] constant per entry point, in order, whose value is the exact WGSL name;
+    - per compute entry, in order: [create_<e>_pipeline] hands the device a descriptor labelled "Compute Pipeline <e>"
+      whose entry point is <e>, and [<E>_WORKGROUP_SIZE] is the entry's workgroup size;
+    - per fragment entry, in order: [<e>_entry] takes and forwards exactly (highest written @location + 1) targets and
+      names entry point <e>;
+    - per vertex entry, in order: [<e>_entry] names entry point <e> and builds one buffer layout per struct parameter,
+      in parameter order, the k-th from the k-th parameter's struct with the k-th step mode argument;
+    - the [vertex_state] / [fragment_state] templates are present exactly when such entries exist. *)
+Theorem C14_holds : forall m src inc o out_,
+  gen m src inc o = Ok out_ -> entry_consts_distinct m = true -> vertex_params_distinct m = true ->
+  o_entry_consts out_ = map (fun e => (const_of e, e_name e)) (entries m) /\
+  map obs_compute (o_compute out_)
+    = map (fun e => (("create_" +s+ e_name e +s+ "_pipeline")%string, ("Compute Pipeline " +s+ e_name e)%string, e_name e)) (of_stage Compute m) /\
+  map obs_workgroup (o_compute out_) = map (fun e => ((e_upper e +s+ "_WORKGROUP_SIZE")%string, e_wg e)) (of_stage Compute m) /\
+  omapM (obs_fragment_entry out_) (o_fentries out_)
+    = Some (map (fun e => ((e_name e +s+ "_entry")%string, e_name e, needed_targets m (e_fn e))) (of_stage Fragment m)) /\
+  omapM (obs_vertex_entry out_) (o_ventries out_)
+    = Some (map (fun e => ((e_name e +s+ "_entry")%string, e_name e, enumerate (struct_param_names m (e_fn e)) 0%N)) (of_stage Vertex m)) /\
+  o_vertex_tpl out_ = nonempty (of_stage Vertex m) /\ o_fragment_tpl out_ = nonempty (of_stage Fragment m).
+Proof. exact C14_obs_gen. Qed.
+Print Assumptions C14_holds.
+
+Definition ex_vin := mkTy (Some "VIn") (TStruct [mkMember (Some "p") 0 (Some (BLocation 0 false)) 0] 16) 16 16 (Some "v_in").
+Definition ex_inst := mkTy (Some "Inst") (TStruct [mkMember (Some "q") 0 (Some (BLocation 1 false)) 0] 16) 16 16 (Some "inst").
+Definition ex_mod2 := mkModule [ex_v4; ex_vin; ex_inst] [] [] [] []
+  [mkEntry "vs" "VS" Vertex (1%N, 1%N, 1%N) false
+     (mkFunc (Some "vs") [mkArg (Some "a") 1 None; mkArg (Some "i") 0 (Some (BBuiltIn "vertex_index")); mkArg (Some "b") 2 None] None [] []);
+   mkEntry "fs" "FS" Fragment (1%N, 1%N, 1%N) false (mkFunc (Some "fs") [] (Some (0, Some (BLocation 2 false))) [] [])] true.
+Example C14_obs_nonvacuous :
+  entry_consts_distinct ex_mod2 = true /\ vertex_params_distinct ex_mod2 = true /\
+  exists out_, gen ex_mod2 "" None (mkOptions false false false false MVRust) = Ok out_ /\
+    omapM (obs_vertex_entry out_) (o_ventries out_) = Some [("vs_entry", "vs", [("VIn", 0%N); ("Inst", 1%N)])] /\
+    omapM (obs_fragment_entry out_) (o_fentries out_) = Some [("fs_entry", "fs", 3%N)].
+Proof. split; [reflexivity|]. split; [reflexivity|]. eexists. split; [|split]; vm_compute; reflexivity. Qed.
